@@ -14,7 +14,8 @@ package main
 // The model side (lean/RoModel/Drivers/Subject.lean runX) reduces both to the sequential model: X i = S i ; U i with
 // everything the subscription would have delivered to i handed to the dropped hook instead; Y i = S i ; U i with all but
 // the first delivered value dropped. A dead subscriber is never left registered, the subject goes on as if it had
-// never come. Every operation runs under a watchdog: `hang=<k>` = the k-th operation (1-based) did not return.
+// never come. Every operation runs under a watchdog: `hang=<k>` = the k-th operation (1-based) did not return (the
+// unicast subject did that on the pinned tree: repaired in /repo 5f819fc).
 
 import (
 	"context"
